@@ -74,6 +74,7 @@ func GlobalSetup() {
 			d, _ = os.MkdirTemp("", "envsim-")
 		}
 		workDir = d
+		vrt.AtExit(func() { os.RemoveAll(d) })
 	}
 	integration.RegisterPlugin("probe", "probeEndpoint", func(string) integration.Plugin { return &plugin{} })
 	viper.Set("integrationPlugins", []string{"probe"})
